@@ -20,7 +20,7 @@ def wide_schema():
     types["TImpl"] = [F("i_" + k, next(n), k, enum="E" if k == "enum" else "") for k in VALUE_KINDS]
     n = iter(range(1, 10000))
     types["TOpt"] = [F("o_" + k, next(n), k, "optional", enum="E" if k == "enum" else "") for k in VALUE_KINDS] + \
-                    [F("o_msg", 40, "message", "optional", msg="Inner")]
+                    [F("o_msg", 40, "message", "optional", msg="Inner"), F("o_ts", 41, "timestamp", "optional"), F("o_dur", 42, "duration", "optional")]
     n = iter(range(1, 10000))
     types["TRep"] = [F("r_" + k, next(n), k, "repeated", enum="E" if k == "enum" else "") for k in VALUE_KINDS] + \
                     [F("r_msg", 40, "message", "repeated", msg="Inner"), F("r_ts", 41, "timestamp", "repeated"),
@@ -28,7 +28,7 @@ def wide_schema():
     n = iter(range(1, 10000))
     types["TOne"] = [F("g_" + k, next(n), k, "oneof", group="g", enum="E" if k == "enum" else "") for k in VALUE_KINDS] + \
                     [F("g_msg", 40, "message", "oneof", group="g", msg="Inner"), F("g_ts", 41, "timestamp", "oneof", group="g"),
-                     F("h_a", 50, "int32", "oneof", group="h"), F("h_b", 51, "string", "oneof", group="h"),
+                     F("g_dur", 42, "duration", "oneof", group="g"), F("h_a", 50, "int32", "oneof", group="h"), F("h_b", 51, "string", "oneof", group="h"),
                      F("h_c", 52, "message", "oneof", group="h", msg="Inner"), F("plain", 60, "int32")]
     n = iter(range(1, 10000))
     types["TMapV"] = [F("mv_" + k, next(n), "map", "map", kkind="string", vkind=k, enum="E" if k == "enum" else "") for k in VALUE_KINDS] + \
